@@ -56,7 +56,8 @@ _GOLITE = {
     "C06": [("loop-pending", "the loop of pendingBase.getPending, translated shallowly, = Throttle.get_pending (the heights lastSubmitted+1 .. height, each fetched once, in increasing order, stop at the first failing fetch), by induction for ALL watermarks and heights"),
             ("submit", "Manager.exponentialBackoff = Submitter.exp_backoff, pendingBase.isEmpty = (store height =? watermark)"),
             ("da", "types.SubmitWithHelpers = Proxy.submit_helper (the status the retry loop of submitToDA switches on)")],
-    "C07": [("includer", "IsDAIncluded, SetRollkitHeightToDAHeight, incrementDAIncludedHeight with their effects in order (Put rhb/h/h, Put rhb/h/d, SetFinal(d+1), Put d, publish by compare-and-swap; nothing after a failed step) = the per-block effects of Includer.incl_effs, for all store contents, marks and heights")],
+    "C07": [("includer", "IsDAIncluded, SetRollkitHeightToDAHeight, incrementDAIncludedHeight with their effects in order (Put rhb/h/h, Put rhb/h/d, SetFinal(d+1), Put d, publish by compare-and-swap; nothing after a failed step) = the per-block effects of Includer.incl_effs, for all store contents, marks and heights"),
+            ("admit", "handlePotentialHeader / handlePotentialData (block/retriever.go), the only writers of the DA-included marks on a full node, with their effects — result, DA-included mark, includer signal, event sent to sync — = Admission.da_admit: a mark is set only for a blob that passed the full validation, for all genesis data, seen-sets, items and DA heights")],
     "C08": [("loop-pending", "the loop of pendingBase.getPending, translated shallowly, = Throttle.get_pending (the heights lastSubmitted+1 .. height, each fetched once, in increasing order, stop at the first failing fetch), by induction for ALL watermarks and heights"),
             ("loop-waiting", "the loop of PendingData.numWaitingData, translated shallowly, = Throttle.waiting_loop (the count and the heights stepped over, in order), by induction for ALL pending lists"),
             ("throttle", "pendingBase.numPending = Throttle.sub64 (uint64 subtraction with wrap-around), pendingBase.isEmpty")],
